@@ -2,6 +2,7 @@ import Fabio.Driver.Proto
 import Fabio.Driver.RouteJson
 import Fabio.Model.C01
 import Fabio.Model.Route
+import Fabio.Model.C01Compose
 /-!
 Driver handlers for C01.
 
@@ -193,6 +194,21 @@ def expectedTable (env : Env) (pfx : Str) (cat : List Instance) (lines : List St
   let tbl := cat.flatMap (buildSimple pfx)
   newTable env (lines.filterMap (fun l => tbl.lookup l) ++ kv)
 
+/-- `strconv.ParseFloat` as shipped by the harness: `{"pf": {token: "num/den" | "inf" | "-inf" | "nan" | null}}` -/
+def pfOf (o : Json) : Fabio.Model.Parse.ParseFloat :=
+  let p := (o.getObjVal? "pf").toOption.getD (Json.mkObj [])
+  fun s => match p.getObjVal? (String.ofList s) with
+    | .ok (.str "nan") => some .nan
+    | .ok (.str "inf") => some .posInf
+    | .ok (.str "-inf") => some .negInf
+    | .ok (.str r) => (parseRat r).map .fin
+    | _ => none
+
+/-- The **model** column is the composed Lean pipeline (phase 2): C01's `watchOnce keyPair` with C14's `build` as
+`routecmd.build` gives the service text, `Model/Parse` + `Model/Route` (`loadTable`) build the table from
+`service text ++ "\n" ++ manual text` — the very functions `Props/C01Compose.lean` is about. The **spec** column
+stays independent of all of them: `HealthyAt` on the full check list, the `buildSimple` mirror, structured
+operator commands. -/
 def pipelineH : Handler := fun inp impl => do
   let cfg := field inp "cfg"
   let pfx := getStrD cfg "prefix"
@@ -202,17 +218,21 @@ def pipelineH : Handler := fun inp impl => do
   let checks ← arrOf checkOf (field reg "checks")
   let cat ← arrOf instOf (field reg "catalog")
   let kv ← arrOf routeDef (field reg "kv")
+  let kvText := getStrD reg "kvtext"
   let env := envOf (field impl "oracle")
+  let pf := pfOf (field impl "oracle")
   let implTable := field impl "table"
-  -- model: the functions of the model, repaired key
-  let mLines := watchOnce keyPair (linesOf pfx) pfx st strict checks (catalogFn cat)
+  -- model: the composed pipeline
+  let ccfg : Fabio.Model.C14.Cfg := { pfx, env := [(S "DC", S "dc1")] }
+  let svcText := Fabio.Model.C01Compose.svcText env pf ccfg st strict checks (catalogFn cat)
+  let composed := Fabio.Model.Parse.loadTable env pf (concatCfg svcText kvText)
   -- spec: the English rule
   let adv := cat.filter (fun i => !(buildSimple pfx i).isEmpty)
   let routed := adv.filter (routedSpec checks st strict)
   let sLines := sortDesc (routed.flatMap (linesOf pfx))
   let ps := pairsOf (checks.filter isServiceCheck) cat
   let feature := (if kv.isEmpty then "nokv" else "kv") ++ (if strict then "-strict" else "-one")
-  match expectedTable env pfx cat mLines kv, expectedTable env pfx cat sLines kv with
+  match composed, expectedTable env pfx cat sLines kv with
   | .ok mt, .ok stb =>
     let mj := tableJson mt
     let agree := closeJson mj implTable
@@ -225,11 +245,15 @@ def pipelineH : Handler := fun inp impl => do
                else if dottedCollision ps && dotted then "dotted-key-collision" else "table-mismatch"
     return ({ model := mj, agree, spec,
               nontrivial := !routed.isEmpty && (routed.length != adv.length || !kv.isEmpty), tag } : Verdict).toJson
-  | a, _ =>
+  | .error _, .error _ =>
     -- the final text does not build: the property (and `quiescent_table`) say nothing about this state
-    let why := match a with | .error e => reprStr e | .ok _ => "spec side"
-    return ({ model := Json.str ("final-text-does-not-build: " ++ why), agree := true, spec := true, nontrivial := false,
+    return ({ model := Json.str "final-text-does-not-build", agree := true, spec := true, nontrivial := false,
               tag := "final-text-invalid" } : Verdict).toJson
+  | .ok mt, .error _ =>
+    return ({ model := tableJson mt, agree := false, spec := true, nontrivial := false, tag := "spec-side-build-error" } : Verdict).toJson
+  | .error _, .ok _ =>
+    return ({ model := Json.str "composed-pipeline-load-error", agree := false, spec := true, nontrivial := false,
+              tag := "composed-load-error" } : Verdict).toJson
 
 def streams : List (String × Handler) :=
   [("c01.passing", passingH), ("c01.join", joinH), ("c01.pipeline", pipelineH)]
